@@ -398,7 +398,11 @@ def gen_lifecycle(rng, idx):
         # a second run of the client after cancel() / async_disconnect: what the previous broker announced (here a small
         # Maximum Packet Size) must not govern requests made before the new run has its own CONNACK
         s4 = Sc(rng, "life-%d" % idx)
-        s4.cfg(hosts=r.choice([1, 2]), ka=0, tseed=r.randrange(1, 1 << 30))
+        kw4 = {}
+        if r.random() < 0.6: kw4["cprops"] = r.choice([[[17, 120]], [[33, 10], [39, 5000]], [[17, 60], [38, "app", "v1"], [34, 5]]])
+        if r.random() < 0.3: kw4["user"] = "u%d" % idx; kw4["pass"] = "secret"
+        if r.random() < 0.3: kw4["will"] = dict(topic="will/t", payload="gone", qos=1, retain=0, props=[[24, 5]])
+        s4.cfg(hosts=r.choice([1, 2]), ka=r.choice([0, 0, 30]), tseed=r.randrange(1, 1 << 30), **kw4)
         s4.add(op="connack", props=[[39, r.choice([20, 30, 40])]] + ([[36, 0], [37, 0]] if r.random() < 0.5 else []))
         s4.run()
         if r.random() < 0.5: s4.recv()
